@@ -810,6 +810,9 @@ func (s *Server) netServe() error {
 				if close {
 					break
 				}
+				if err == errCloseHTTP {
+					break // close connection
+				}
 				if err != nil {
 					log.Error(err)
 					if lastConnType == RESP {
@@ -1576,6 +1579,10 @@ var NOMessage = resp.SimpleStringValue("")
 
 var errInvalidHTTP = errors.New("invalid HTTP request")
 
+// errCloseHTTP ends a connection whose HTTP request was answered by the reader
+// itself (the CORS preflight): nothing is logged or written for it.
+var errCloseHTTP = errors.New("HTTP request answered, closing connection")
+
 // Type is resp type
 type Type byte
 
@@ -1706,7 +1713,9 @@ func readNextHTTPCommand(packet []byte, argsIn [][]byte, msg *Message, wr io.Wri
 			if _, err = wr.Write([]byte(corshead)); err != nil {
 				return false, err
 			}
-			return false, nil
+			// the response says "Connection: close"; leaving the request in the
+			// buffer would answer it again with every later read
+			return false, errCloseHTTP
 		}
 		if len(path) == 0 || path[0] != '/' {
 			return false, errInvalidHTTP
